@@ -17,6 +17,65 @@ PARSER = "nsl/parser.py"
 LEXER = "nsl/lexer.py"
 
 
+def _inline_slot_aliases(f: ast.FunctionDef) -> ast.FunctionDef:
+    """Copy of a grammar action in which a local bound exactly once to a slot `p[i]` that the action never assigns
+    (`statements = p[2]`) is replaced by the slot: both denote the same object wherever the local is read."""
+    import copy
+
+    if len(f.args.args) < 2:
+        return f
+    pn = f.args.args[1].arg
+
+    def slot(e):
+        return e.slice.value if isinstance(e, ast.Subscript) and isinstance(e.value, ast.Name) and e.value.id == pn and isinstance(e.slice, ast.Constant) and isinstance(e.slice.value, int) else None
+
+    stores = {}
+    assigned_slots = set()
+    for n in ast.walk(f):
+        if isinstance(n, (ast.Assign, ast.AugAssign, ast.AnnAssign, ast.For, ast.NamedExpr, ast.comprehension, ast.With)):
+            tg = n.targets if isinstance(n, ast.Assign) else [i.optional_vars for i in n.items] if isinstance(n, ast.With) else [getattr(n, "target", None)]
+            for t in tg:
+                if t is None:
+                    continue
+                if slot(t) is not None:
+                    assigned_slots.add(slot(t))
+                for x in ast.walk(t):
+                    if isinstance(x, ast.Name) and isinstance(x.ctx, ast.Store):
+                        stores.setdefault(x.id, []).append(n)
+    env = {}
+    for name, sites in stores.items():
+        s = sites[0]
+        if len(sites) == 1 and isinstance(s, ast.Assign) and len(s.targets) == 1 and isinstance(s.targets[0], ast.Name) and slot(s.value) is not None and slot(s.value) not in assigned_slots:
+            env[name] = s
+    if not env:
+        return f
+    f2 = copy.deepcopy(f)
+    # (positions in the copy: match by name, the binding is unique)
+    names = set(env)
+
+    class _S(ast.NodeTransformer):
+        def __init__(self):
+            self.vals = {}
+
+        def visit_Assign(self, n):
+            if len(n.targets) == 1 and isinstance(n.targets[0], ast.Name) and n.targets[0].id in names and slot(n.value) is not None:
+                self.vals[n.targets[0].id] = n.value
+                return None
+            return self.generic_visit(n)
+
+        def visit_Name(self, n):
+            if isinstance(n.ctx, ast.Load) and n.id in self.vals:
+                return ast.copy_location(copy.deepcopy(self.vals[n.id]), n)
+            return n
+
+    f2 = _S().visit(f2)
+    for b in ast.walk(f2):
+        for fld in ("body", "orelse"):
+            if hasattr(b, fld) and isinstance(getattr(b, fld), list) and not getattr(b, fld) and fld == "body":
+                setattr(b, fld, [ast.Pass()])
+    return ast.fix_missing_locations(f2)
+
+
 class Production:
     def __init__(self, index, name, syms, func, alt, line):
         self.index = index  # 1-based, PLY numbering (0 is S')
@@ -79,6 +138,7 @@ class Grammar:
                 f = expand_helpers(model, pcls, f, skip=("v_", "p_", "__GetLocation", "_NslParser__GetLocation"))
             except Exception:
                 pass
+            f = _inline_slot_aliases(f)
             try:
                 parsed = yacc.parse_grammar(doc, PARSER, f.lineno)
             except SyntaxError as e:
